@@ -16,6 +16,8 @@
 (*   OrderIndependent  (C08)  lazy outcome of the program = lazy outcome   *)
 (*                            of the program with its stanzas swapped      *)
 (*   EdgeSet / SingleAssignment (C09) on every final graph                 *)
+(*   DebugNeutral / DebugComplete (C15) debug attributes change nothing    *)
+(*                            else                                         *)
 (* Graph isomorphism is decided inside TLA+ by searching a permutation of  *)
 (* the graph nodes (graphs of at most MaxIsoNodes nodes; larger graphs are *)
 (* compared by their signature multisets only).                            *)
@@ -83,15 +85,19 @@ RECURSIVE RunToEnd(_, _, _)
 RunToEnd(c, tr, s) == IF s.status # "run" THEN s ELSE LET s1 == Step(c, tr, s) IN IF s1.steps > 0 THEN RunToEnd(c, tr, s1) ELSE s
 Final(c) == RunToEnd(c, Tr, InitState(c, EmptyGraph))
 
-VARIABLES b1, b2, phase, fs, fl, flw      \* bodies; finals: strict, lazy, lazy with stanzas swapped
-vars == <<b1, b2, phase, fs, fl, flw>>
+VARIABLES b1, b2, phase, fs, fl, flw, fsd, fld   \* bodies; finals: strict, lazy, lazy with stanzas swapped, strict/lazy with debug attributes
+vars == <<b1, b2, phase, fs, fl, flw, fsd, fld>>
 
 None == [status |-> "none"]
-Init == b1 \in Bodies(MaxLen1) /\ b2 \in Bodies(MaxLen2) /\ phase = "strict" /\ fs = None /\ fl = None /\ flw = None
-RunStrict == phase = "strict" /\ fs' = Final(CaseOf(b1, b2, "strict", FALSE)) /\ phase' = "lazy" /\ UNCHANGED <<b1, b2, fl, flw>>
-RunLazy == phase = "lazy" /\ fl' = Final(CaseOf(b1, b2, "lazy", FALSE)) /\ phase' = "swapped" /\ UNCHANGED <<b1, b2, fs, flw>>
-RunSwapped == phase = "swapped" /\ flw' = Final(CaseOf(b1, b2, "lazy", TRUE)) /\ phase' = "done" /\ UNCHANGED <<b1, b2, fs, fl>>
-Next == RunStrict \/ RunLazy \/ RunSwapped
+DbgNames == {"dbg_loc", "dbg_var", "dbg_mat"}
+WithDbg(c) == [c EXCEPT !.dbg = [on |-> TRUE, loc |-> "dbg_loc", var |-> "dbg_var", mat |-> "dbg_mat"]]
+Init == b1 \in Bodies(MaxLen1) /\ b2 \in Bodies(MaxLen2) /\ phase = "strict" /\ fs = None /\ fl = None /\ flw = None /\ fsd = None /\ fld = None
+RunStrict == phase = "strict" /\ fs' = Final(CaseOf(b1, b2, "strict", FALSE)) /\ phase' = "lazy" /\ UNCHANGED <<b1, b2, fl, flw, fsd, fld>>
+RunLazy == phase = "lazy" /\ fl' = Final(CaseOf(b1, b2, "lazy", FALSE)) /\ phase' = "swapped" /\ UNCHANGED <<b1, b2, fs, flw, fsd, fld>>
+RunSwapped == phase = "swapped" /\ flw' = Final(CaseOf(b1, b2, "lazy", TRUE)) /\ phase' = "dbg" /\ UNCHANGED <<b1, b2, fs, fl, fsd, fld>>
+RunDebug == phase = "dbg" /\ fsd' = Final(WithDbg(CaseOf(b1, b2, "strict", FALSE))) /\ fld' = Final(WithDbg(CaseOf(b1, b2, "lazy", FALSE)))
+              /\ phase' = "done" /\ UNCHANGED <<b1, b2, fs, fl, flw>>
+Next == RunStrict \/ RunLazy \/ RunSwapped \/ RunDebug
 Spec == Init /\ [][Next]_vars
 
 \* ---------------------------------------------------------------- graph isomorphism inside TLA+
@@ -128,6 +134,18 @@ OrderIndependent ==
 \* (C09) edges form a set, attribute values are single
 EdgeSet ==
   Done => \A f \in {fs, fl, flw} : \A i \in 1..f.w.g.n : \A p \in 1..(Len(f.w.g.out[i]) - 1) : f.w.g.out[i][p].sink < f.w.g.out[i][p + 1].sink
+\* (C15) debug attributes are neutral: same success, and without the three attributes the same graph (here even with the same numbering)
+StripAttrs(m) == [a \in (DOMAIN m) \ DbgNames |-> m[a]]
+StripGraph(g) == [g EXCEPT !.na = [i \in 1..g.n |-> StripAttrs(g.na[i])],
+                           !.out = [i \in 1..g.n |-> [q \in 1..Len(g.out[i]) |-> [g.out[i][q] EXCEPT !.at = StripAttrs(@)]]]]
+DebugNeutral ==
+  Done => /\ fsd.status = fs.status /\ fld.status = fl.status
+          /\ (fs.status = "ok" => StripGraph(fsd.w.g) = fs.w.g)
+          /\ (fl.status = "ok" => StripGraph(fld.w.g) = fl.w.g)
+          /\ (fs.status = "err" => fsd.err.kind = fs.err.kind)
+\* with debug attributes every node created by a `node` statement carries the three attributes, every edge a location
+DebugComplete ==
+  Done /\ fsd.status = "ok" => \A i \in 1..fsd.w.g.n : \A q \in 1..Len(fsd.w.g.out[i]) : "dbg_loc" \in DOMAIN fsd.w.g.out[i][q].at
 \* (C01) every run terminates in a proper outcome
 Total == Done => \A f \in {fs, fl, flw} : f.status \in {"ok", "err"} /\ f.w.unsup = <<>>
 Replay == Done => PrintT(<<"PROG", ToJson([b1 |-> b1, b2 |-> b2, prog |-> ProgOf(b1, b2),
